@@ -1531,3 +1531,33 @@ func (g *G) MutualUsersets() (*rm.Model, []rm.Tuple, []Request) {
 	}
 	return m, tuples, reqs
 }
+
+// RepeatedContextualTuple builds batch items that all ask the same question and all carry ONE
+// contextual tuple key twice, with different condition contexts (valid input: each copy is a tuple
+// of its own). Items differ only in those contexts, so any de-duplication key that looks at less
+// than the whole tuple makes two of them collide. nil if the model has no conditioned userset
+// restriction.
+func (g *G) RepeatedContextualTuple(m *rm.Model) []Request {
+	for _, td := range m.Types {
+		for _, r := range td.Relations {
+			for _, res := range r.Restrictions {
+				if res.Cond == "" || res.Relation == "" || m.Rel(res.Type, res.Relation) == nil {
+					continue
+				}
+				obj := td.Name + ":" + Pick(g, objIDs)
+				grp := res.Type + ":" + Pick(g, objIDs)
+				user := "user:" + Pick(g, userIDs)
+				var items []Request
+				for i := 0; i < 4; i++ {
+					var cts []rm.Tuple
+					for k := 0; k < 2; k++ {
+						cts = append(cts, rm.Tuple{Obj: obj, Rel: r.Name, User: grp + "#" + res.Relation, Cond: res.Cond, Ctx: g.condCtx(m, res.Cond, true)})
+					}
+					items = append(items, Request{Kind: "check", Obj: obj, Rel: r.Name, User: user, CtxTuples: cts, Limit: 77})
+				}
+				return items
+			}
+		}
+	}
+	return nil
+}
